@@ -105,14 +105,14 @@ PROPS = {
     "C04": {
         "level": "exploration",
         "interpreters": PRODUCERS,
-        "rule": "S-SIG completely: (posonly{0,1,2 on 3.8+} x pos-or-kw{0,1,2} x kwonly{0,1,2} x *args{0,1} x **kw{0,1}) x {def, lambda, async def, generator, async generator, method} x 12 docstring shapes (none, plain, non-first string, non-string first statement, bytes, f-string, lone surrogate, string first used as a value, stripped by optimize=2, empty string, empty string also used as a value, whitespace) x parameter-is-a-cell{no,yes}, plus comprehensions/class bodies/modules, each S-SIG function also renamed (co_name '<lambda>', '<listcomp>', '<module>', ''), plus every function-like code object of the program grammar (Pa, Pc, repo sources; thorough: all strata and the stdlib corpus). Oracle: header reading of CPython's local layout, inspect.signature of a function built from the code, and CPython's own argument binding of a stub with the same header (positional/keyword/negative calls). distinct_nontrivial = distinct (signature, flags, first-constant type) triples of function-like code objects.",
+        "rule": "S-SIG completely: (posonly{0,1,2 on 3.8+} x pos-or-kw{0,1,2} x kwonly{0,1,2} x *args{0,1} x **kw{0,1}) x {def, lambda, async def, generator, async generator, method} x 12 docstring shapes (none, plain, non-first string, non-string first statement, bytes, f-string, lone surrogate, string first used as a value, stripped by optimize=2, empty string, empty string also used as a value, whitespace) x parameter-is-a-cell{no,yes}, plus comprehensions/class bodies/modules, each S-SIG function also renamed (co_name '<lambda>', '<listcomp>', '<module>', ''), plus every function-like code object of the program grammar (Pa, Pc, repo sources; thorough: all strata and the stdlib corpus). Oracle: header reading of CPython's local layout, inspect.signature of a function built from the code, and CPython's own argument binding of a stub with the same header (positional/keyword/negative calls). distinct_nontrivial = distinct (signature, flags, first-constant type) triples of function-like code objects. After each judgement the caller empties the mapping that Args.parameters handed out and the same code object is decoded and read again: the second answer must still be CPython's binding (answers are the caller's own, whatever it did to earlier ones).",
         "assumptions": TRUST + ["inspect's 'implicitN' presentation of comprehension parameters is undone (see DESIGN 9.2)"],
         "required_reach": {"quick": ["param:POSITIONAL_ONLY@3.8,3.9,3.10", "param:POSITIONAL_OR_KEYWORD", "param:VAR_POSITIONAL", "param:KEYWORD_ONLY", "param:VAR_KEYWORD", "param:star+kwonly", "has-doc", "kind:GENERATOR", "kind:COROUTINE", "kind:ASYNC_GENERATOR", "kind:None", "nonfn", "sig-ok", "nonfn-ok"]},
     },
     "C11": {
         "level": "exploration",
         "interpreters": PRODUCERS,
-        "rule": "all 2^18 subsets of the flag bits CPython defines (dis.COMPILER_FLAG_NAMES + __future__ compiler flags, read from CPython, not from the library) converted to names and back, in chunks of 64 words each run in a freshly forked child (enum's pseudo-member cache); every word with exactly one of the 14 unknown bits x subsets of known flags of size <=2 (thorough: x all 2^18); header alterations of 16 base code objects: co_flags XOR every mask of Hamming weight <=2 over 32 bits (529 each), and every (argcount, posonlyargcount, kwonlyargcount) triple in 0..min(len(varnames),4) x {0, each single flag bit, both function flags cleared} that types.CodeType accepts; and every name-carrying header entry (each variable/cell/free/global name, co_name, co_filename) replaced in turn by '', a non-identifier and a lone surrogate. ; negative words (bit 31 as a negative int, -1, -2); for base objects that are nested, the fields code.__eq__ ignores (co_stacksize, co_filename, line table) of the nested object altered and the parent converted right after the unaltered parent. Oracle: from_code raises or to_code() is strictly identical to the altered object. distinct_nontrivial = distinct flag words + distinct (base, alteration) pairs built.",
+        "rule": "all 2^18 subsets of the flag bits CPython defines (dis.COMPILER_FLAG_NAMES + __future__ compiler flags, read from CPython, not from the library) converted to names and back, in chunks of 64 words each run in a freshly forked child (enum's pseudo-member cache); every word with exactly one of the 14 unknown bits x subsets of known flags of size <=2 (thorough: x all 2^18); header alterations of 16 base code objects: co_flags XOR every mask of Hamming weight <=2 over 32 bits (529 each), and every (argcount, posonlyargcount, kwonlyargcount) triple in 0..min(len(varnames),4) x {0, each single flag bit, both function flags cleared} that types.CodeType accepts; and every name-carrying header entry (each variable/cell/free/global name, co_name, co_filename) replaced in turn by '', a non-identifier and a lone surrogate. ; negative words (bit 31 as a negative int, -1, -2); for base objects that are nested, the fields code.__eq__ ignores (co_stacksize, co_filename, line table) of the nested object altered and the parent converted right after the unaltered parent. Oracle: from_code raises or to_code() is strictly identical to the altered object. distinct_nontrivial = distinct flag words + distinct (base, alteration) pairs built. Line-table alterations of each base object: emptied, cut after the first entry, and continued with 1-4 entries at and beyond the end of the bytecode (byte steps 2 and 4, forward and backward line bytes): from_code raises or to_code reproduces the table and every other field.",
         "assumptions": TRUST,
         "required_reach": {"quick": ["word-ok", "unknown-bit-raises", "reproduced", "from_code-raises"]},
         "shards": {"quick": 16, "thorough": 16},
@@ -120,14 +120,14 @@ PROPS = {
     "C10": {
         "level": "model_checking",
         "interpreters": PRODUCERS,
-        "rule": "abstract line programs = sequences (length <=2; thorough also length 3 over reduced alphabets) of steps (bytecode delta in {2,4,252,254,256,258,508,510,512,764,1020} (+0 for lnotab), line delta in {0,+-1,+-127,+-128,+-129,+-254,255,-256,-257,381,-384} (thorough: also +-126,+-253,-255,+256) | no-line (3.10)), x tail {trailing entry, 2, 300 bytes} for lnotab, emitted through executable models of CPython's assemblers (assemble_lnotab 3.7/3.8/3.9 variants, 3.10 assemble_line_range) into real code objects; plus programs whose statements carry chosen line numbers and bytecode lengths compiled by the real compiler (AST route); plus every table of the program grammar (thorough: and of the stdlib). Every real table and every model table on code of <= 520 bytes also goes through a full CodeData.from_code/to_code round trip of the object carrying it. states = distinct (table, code length, first line) triples judged; transitions = codec stage applications; traces_validated_against_impl = model traces whose table CPython's own reader (PyCode_Addr2Line) read back exactly as the line program says + compile()-realizable programs where the model's bytes equal the real assembler's table.",
+        "rule": "abstract line programs = sequences (length <=2; thorough also length 3 over reduced alphabets) of steps (bytecode delta in {2,4,252,254,256,258,508,510,512,764,1020} (+0 for lnotab), line delta in {0,+-1,+-127,+-128,+-129,+-254,255,-256,-257,381,-384} (thorough: also +-126,+-253,-255,+256) | no-line (3.10)), x tail {trailing entry, 2, 300 bytes} for lnotab, emitted through executable models of CPython's assemblers (assemble_lnotab 3.7/3.8/3.9 variants, 3.10 assemble_line_range) into real code objects; plus programs whose statements carry chosen line numbers and bytecode lengths compiled by the real compiler (AST route); plus every table of the program grammar (thorough: and of the stdlib). Every real table and every model table on code of <= 520 bytes also goes through a full CodeData.from_code/to_code round trip of the object carrying it. states = distinct (table, code length, first line) triples judged; transitions = codec stage applications; traces_validated_against_impl = model traces whose table CPython's own reader (PyCode_Addr2Line) read back exactly as the line program says + compile()-realizable programs where the model's bytes equal the real assembler's table. Before its native judgement every abstract line program is also emitted in the *other* format by the same assembler models and taken through the six stage functions with the format flag turned round (decode, then re-encode must reproduce the model's table): both formats are handled in one process, in interleaved order.",
         "assumptions": TRUST + ["the 3.10 continuation rule for no-line runs longer than 254 bytes ((254,-128) chunks) cannot be produced by compile(); it is bound to CPython by read-back through PyCode_Addr2Line only"],
-        "required_reach": {"quick": ["table:no-line-long@3.10", "table:no-line@3.10", "table:split-bytes", "table:split-line", "table:zero-width", "table:backward", "table:zero-delta-entry@3.7,3.8", "model-conforms-to-compile", "table-ok:model", "table-ok:real", "codedata-roundtrip-ok"]},
+        "required_reach": {"quick": ["table:no-line-long@3.10", "table:no-line@3.10", "table:split-bytes", "table:split-line", "table:zero-width", "table:backward", "table:zero-delta-entry@3.7,3.8", "model-conforms-to-compile", "table-ok:model", "table-ok:real", "codedata-roundtrip-ok", "other-format-ok"]},
     },
     "C08": {
         "level": "exploration",
         "interpreters": ALL,
-        "rule": "all ordered pairs of the constant universe S-CONST (54 atoms incl. signed zeros, NaNs with either sign and a payload, infinities, 2^53 neighbours, huge ints, complex with signed zero/NaN parts, lone surrogates, tag-lookalike strings, bytes, Ellipsis; closed under 1-tuples, singleton frozensets, pairs over a 12-atom core, one more nesting level; each value built twice independently) compared as Constant, as one-instruction CodeData and against the JSON-loaded copy: == must coincide with CPython's constant partition (_PyCode_ConstantKey, NaNs merged; cross-checked against the harness's strict key on every pair), be symmetric, consistent with !=, and imply equal hashes and mutual set/dict membership; equal values encode to identical code. All ordered pairs of CodeData obtained from a spread of 300 (thorough 600) grammar programs by 7 routes (decode, decode of an independent compile, normalize, JSON load of both, field-by-field reconstruction, decode of encode) plus about 16 single-field deviations of the decoded value (each must be unequal to everything else). setattr/delattr of every field of every dataclass. Second stage, in processes with another string-hash seed: the decoded, normalized and JSON-loaded value of every program, pickled by the first stage after being hashed, must equal the freshly computed value, hash equal and be found in a set. distinct_nontrivial = distinct equal pairs of non-identical objects + (type, field) pairs.",
+        "rule": "all ordered pairs of the constant universe S-CONST (54 atoms incl. signed zeros, NaNs with either sign and a payload, infinities, 2^53 neighbours, huge ints, complex with signed zero/NaN parts, lone surrogates, tag-lookalike strings, bytes, Ellipsis; closed under 1-tuples, singleton frozensets, pairs over a 12-atom core, one more nesting level; each value built twice independently) compared as Constant, as one-instruction CodeData and against the JSON-loaded copy: == must coincide with CPython's constant partition (_PyCode_ConstantKey, NaNs merged; cross-checked against the harness's strict key on every pair), be symmetric, consistent with !=, and imply equal hashes and mutual set/dict membership; equal values encode to identical code. All ordered pairs of CodeData obtained from a spread of 300 (thorough 600) grammar programs by 7 routes (decode, decode of an independent compile, normalize, JSON load of both, field-by-field reconstruction, decode of encode) plus about 16 single-field deviations of the decoded value (each must be unequal to everything else). setattr/delattr of every field of every dataclass. Second stage, in processes with another string-hash seed: the decoded, normalized and JSON-loaded value of every program, pickled by the first stage after being hashed, must equal the freshly computed value, hash equal and be found in a set. distinct_nontrivial = distinct equal pairs of non-identical objects + (type, field) pairs. Every code object of every program, decoded on its own and normalized, must be hashable. The program routes also cover 16 functions with one or two unreachable lines after `return` (before 3.10 they decode to an AdditionalLine with several additional offsets).",
         "assumptions": TRUST + ["on 3.11-3.13 only the hand-built and JSON routes exist (from_code cannot run there)"],
         "stages": 2,
         "required_reach": {"quick": ["equal-pair-ok", "unequal-pair-ok", "frozen-ok", "route-pair-equal", "unpickled-equal-and-hash-equal"]},
@@ -173,7 +173,7 @@ PROPS = {
     "C16": {
         "level": "exploration",
         "interpreters": PRODUCERS,
-        "rule": "S-CLI completely: presence/absence of each program source {file, -c, -e, -m} (16 combinations: 4 valid, 12 usage errors) x all 2^5 subsets of {--dis, --dis-after, --source, --no-normalize, --json} x 13 programs (empty; two lines (its -e form builds the text from `linesep` inside a generator expression); nested functions/closure/class; NaN/inf/-0.0/bytes/surrogate/complex/huge-int/tuple/frozenset constants; 300 constants; non-ASCII; async/comprehension/try/while; lines >255 apart; a latin-1 coding cookie; a UTF-8 BOM; whitespace-only lines inside triple-quoted strings; backslash-n inside literals; one-line suites) = 6656 argv vectors per interpreter (plus each program once as `/dev/stdin` fed through a pipe), each run in-process through code_data._cli.main(); the vectors with no flag and with all flags are also run through the real entry point in a subprocess and must agree. Oracle: usage error (exit 2) iff the number of sources != 1; else exit 0, the printed CodeData line textually equals repr() of the API result (normalized unless --no-normalize), the printed JSON loads back to it, --dis/--dis-after listings equal the harness's own dis of the program (opnames and resolved operands).",
+        "rule": "S-CLI completely: presence/absence of each program source {file, -c, -e, -m} (16 combinations: 4 valid, 12 usage errors) x all 2^5 subsets of {--dis, --dis-after, --source, --no-normalize, --json} x 13 programs (empty; two lines (its -e form builds the text from `linesep` inside a generator expression); nested functions/closure/class; NaN/inf/-0.0/bytes/surrogate/complex/huge-int/tuple/frozenset constants; 300 constants; non-ASCII; async/comprehension/try/while; lines >255 apart; a latin-1 coding cookie; a UTF-8 BOM; whitespace-only lines inside triple-quoted strings; backslash-n inside literals; one-line suites) = 6656 argv vectors per interpreter (plus each program once as `/dev/stdin` fed through a pipe), each run in-process through code_data._cli.main(); the vectors with no flag and with all flags are also run through the real entry point in a subprocess and must agree. Oracle: usage error (exit 2) iff the number of sources != 1; else exit 0, the printed CodeData line textually equals repr() of the API result (normalized unless --no-normalize), the printed JSON loads back to it, --dis/--dis-after listings equal the harness's own dis of the program (opnames and resolved operands). Every single-source vector with -c, -e or -m is also run with the value attached to the option (-cx=1, -mjson: 3 x 32 x 13 more vectors; the empty -c value has no attached spelling and is skipped).",
         "assumptions": TRUST + ["the plain-console path is checked (rich is not installed on the producer interpreters)"],
         "required_reach": {"quick": ["usage-error:0-sources", "usage-error:2-sources", "usage-error:4-sources", "prints-api-result:file", "prints-api-result:-c", "prints-api-result:-e", "prints-api-result:-m", "json-ok", "dis-after-ok", "subprocess-agrees", "pipe-source-ok"]},
     },
